@@ -23,6 +23,26 @@ TEXT = {
    note="trusted: as C02; partial: probe/open agreement not yet a theorem",
    technique="Lean 4 proof (prefix-replacement lemmas per decoder, fuel monotonicity by induction) + differential correspondence + Go-only oracle",
    design="§4/C13"),
+ "C01": dict(
+   text="Lean 4 theorems for every value tree over the pinned layout (inductive predicate Valid: 15 scalar kinds, lists and messages of any count, size and nesting), behind every prefix: the recursive parser accepts with exactly the produced size (induction over Valid with fuel), probe and OpenValue delimit the value exactly, every list element is found at its index, every message field is found under its tag with exactly the written bytes for every write order (sorted-insert permutation lemma + proved-correct binary search), unwritten tags are absent and read as zero, the table enumerates exactly the written pairs; small and big table forms are case splits of the proofs (255/256, 65535/65536). PARTIAL: the writer state machine refining encList/encMsg is checked on every generated program, not proved. Tie: writer programs (bounded-exhaustive trees of <=3 nodes over a boundary alphabet, random trees, all permutations, count/offset/depth boundaries, Any/Copy/Merge) run on the real writer+reader and on the writer model + reference layout; Go-only oracle compares the read-back with the generated tree.",
+   note="trusted: Lean kernel, hand-written wire and writer models (validated differentially), MsgWF side conditions (distinct tags < 2^16, sizes < 2^32), FloatLaws, extractor/harness/runner",
+   technique="Lean 4 proof (induction over valid encodings, permutation + binary-search correctness) + reference-layout cross-check + differential correspondence + Go round-trip oracle",
+   design="§4/C01"),
+ "C08": dict(
+   text="Lean 4 theorems pinning the layout the property names (type code of every encoder, big-endian fixed widths, NUL-terminated string layout, varint widths, big list form iff >255 elements or last offset >65535, big message form iff a tag >255 or an offset >65535, table strictly sorted by tag and a permutation of the written pairs, library reads every such encoding back) with the type codes and entry sizes tied to the source by regenerated facts (Ties.lean). Determinism/pool/buffer independence is decided by running every program five ways (fresh, reused after a failed program + Reset, stale buffer memory, pooled writer, non-empty buffer prefix) against the model: bytes must be identical to the reference layout. PARTIAL: prefix/pool independence is not a theorem.",
+   note="trusted: as C01; the Lean layout functions are the independent reference implementation; found and repaired: EncodeString left the terminator uninitialised on reused buffers",
+   technique="Lean 4 proof of layout facts + regenerated constants + five-way differential correspondence",
+   design="§4/C08"),
+ "C12": dict(
+   text="Lean 4 theorems on the writer state machine for every state: every write/end on a failed writer returns the stored (first) error unchanged, fail keeps the first error, Free is safe in every state incl. after an error and twice, Reset yields the clean state, ended message handles report closed, End twice reports closed. PARTIAL: no-panic for all call sequences and 'successful root Build parses completely' are decided by the differential stream (all handle-consistent programs of length <=4 over a 29-call alphabet, <=5 on a reduced one in the thorough tier, random programs with 25% illegal calls) plus the Go-side oracle (panic / GARBAGE / STICKY).",
+   note="trusted: Lean kernel, hand-written writer model validated per call token; repaired: Free after failure/twice, MessageWriter use after End, ListWriter.Len on nested lists",
+   technique="Lean 4 proof (state-machine lemmas) + bounded-exhaustive and random differential correspondence + Go-only oracle",
+   design="§4/C12"),
+ "C16": dict(
+   text="Lean 4 corollaries of C01's field theorems, which hold for arbitrary surrounding fields: a field common to two schema versions reads back as exactly the written value in both, whatever other fields were added, removed, renamed (same tag) or reordered; a field absent from the data reads as absent/zero. PARTIAL: Copy/Merge preserving unknown fields is checked by the differential stream (writer that overrides a random subset of tags, then merges) with the Go round-trip oracle; the generated-code leg is part of C05.",
+   note="trusted: as C01",
+   technique="Lean 4 proof (corollaries of the by-tag lookup theorems) + differential correspondence + Go round-trip oracle",
+   design="§4/C16"),
 }
 
 def main():
